@@ -365,7 +365,7 @@ impl std::cmp::Eq for BitPage {}
 
 #[cfg(googlefonts_fontations_verif)]
 #[path = "/verif/harness/incrate/bitpage.rs"]
-mod verif_harness;
+pub(super) mod verif_harness;
 
 #[cfg(test)]
 mod test {
